@@ -128,12 +128,10 @@ type vMonitor struct {
 	restartsAlive int // restarts that happened while >=1 crunch-run was alive
 	lockFails     int
 	heldNow       map[cloud.InstanceID]bool
-	// client-side view of "crunch-run --detach" calls that have not returned
-	// to the pool yet (key vm/uuid), for the double-Close defect classifier
-	inflight        map[string]int
-	inflightDec     map[string]*vDecision // the StartContainer decision behind an in-flight --detach
-	seenDuringStart map[string]bool
-	forceList       map[string]bool
+	// pool-side view of "crunch-run --detach" calls that have not returned to
+	// the pool yet (key vm/uuid) and the StartContainer decision behind each
+	inflight    map[string]int
+	inflightDec map[string]*vDecision
 	staleLockTO   time.Duration
 	bootTO        time.Duration
 	rng           *rand.Rand // VM plans beyond the scenario's list; guarded by mu
@@ -433,12 +431,10 @@ func (m *vMonitor) exec(info *vVMInfo, inner test.SSHExecFunc, env map[string]st
 		return rc
 	case cmd == "crunch-run --list":
 		var buf bytes.Buffer
-		rc := inner(env, cmd, stdin, &buf, stderr)
-		out := buf.String()
+		rc := inner(env, cmd, stdin, io.MultiWriter(stdout, &buf), stderr)
 		if rc == 0 {
-			out = m.listAnswered(info, gen, out)
+			m.listAnswered(info, gen, buf.String())
 		}
-		io.WriteString(stdout, out)
 		return rc
 	case strings.HasPrefix(cmd, "crunch-run --kill "):
 		uuid := vUUIDRe.FindString(cmd)
@@ -449,9 +445,6 @@ func (m *vMonitor) exec(info *vVMInfo, inner test.SSHExecFunc, env map[string]st
 			tr.kills++
 		}
 		m.ev(gen, "kill", vmid, uuid, fmt.Sprintf("rc=%d", rc))
-		if key := vmid + "/" + uuid; rc == 0 && gen == m.curGen && m.inflight[key] > 0 && m.seenDuringStart[key] && !m.forceList[key] {
-			m.doubleClose(key, "crunch-run --kill succeeded")
-		}
 		m.mu.Unlock()
 		return rc
 	case strings.HasPrefix(cmd, "crunch-run --detach "):
@@ -460,22 +453,7 @@ func (m *vMonitor) exec(info *vVMInfo, inner test.SSHExecFunc, env map[string]st
 	return inner(env, cmd, stdin, stdout, stderr)
 }
 
-// doubleClose records a worker-pool defect (fixed upstream of this harness in
-// /repo commit 6d15d19; kept as a regression detector): the runner of a
-// container was moved to wkr.running by a probe and closed again while its
-// Start() call had not returned; when Start() returns the closed runner is put
-// back and the next closeRunner()/worker.Close() panics ("close of closed
-// channel") on a pool goroutine, killing the dispatcher. To be able to report
-// it, the container is listed by this VM from now on so that the pool does not
-// get to the second Close() before the scenario is torn down. Caller holds m.mu.
-func (m *vMonitor) doubleClose(key, how string) {
-	m.forceList[key] = true
-	m.violate("[crash] %s: %s while the pool's `crunch-run --detach` call for it had not returned yet, after a probe had already shown it running: "+
-		"the pool closed the runner and will put the closed runner back into wkr.running when Start() returns; the next closeRunner()/worker.Close() panics (close of closed channel) and the dispatcher process dies",
-		key, how)
-}
-
-func (m *vMonitor) listAnswered(info *vVMInfo, gen int, out string) string {
+func (m *vMonitor) listAnswered(info *vVMInfo, gen int, out string) {
 	listed := map[string]bool{}
 	broken := false
 	for _, line := range strings.Split(out, "\n") {
@@ -490,31 +468,7 @@ func (m *vMonitor) listAnswered(info *vVMInfo, gen int, out string) string {
 	m.mu.Lock()
 	defer m.mu.Unlock()
 	if m.isDead(gen) || gen != m.curGen {
-		return out
-	}
-	// double-Close classifier (see doubleClose)
-	prefix := string(info.id) + "/"
-	var force []string
-	for key, n := range m.inflight {
-		if n <= 0 || !strings.HasPrefix(key, prefix) {
-			continue
-		}
-		uuid := key[len(prefix):]
-		switch {
-		case m.forceList[key]:
-		case listed[uuid]:
-			m.seenDuringStart[key] = true
-		case m.seenDuringStart[key]:
-			m.doubleClose(key, "a later probe did not list it any more")
-		}
-	}
-	for key := range m.forceList {
-		if strings.HasPrefix(key, prefix) && !listed[key[len(prefix):]] {
-			force = append(force, key[len(prefix):])
-		}
-	}
-	if len(force) > 0 {
-		out = strings.Join(force, "\n") + "\n" + out
+		return
 	}
 	if !info.listOK[gen] {
 		info.listOK[gen] = true
@@ -539,7 +493,6 @@ func (m *vMonitor) listAnswered(info *vVMInfo, gen int, out string) string {
 			delete(m.inherited, uuid)
 		}
 	}
-	return out
 }
 
 func (m *vMonitor) dbState(uuid string) (string, int64) {
